@@ -288,7 +288,10 @@ def gen_class(c: Ctx, ind, depth):
         else:
             out += gen_function(c, b, depth, method=True)
             c.features.add("method")
-    if out[-1].rstrip().endswith(":") and "class " in out[-1]:
+    hdr_at = max(i for i, l in enumerate(out) if l.startswith(ind + "class " + name))
+    rest = out[hdr_at + 1:]
+    # a class body needs at least one statement besides comments / blank lines (a docstring counts)
+    if all((not l.strip()) or l.strip().startswith("#") for l in rest):
         out.append(b + "pass")
     return out
 
